@@ -1453,7 +1453,8 @@ PROPS['C19'] = dict(
 PROPS['C07'] = dict(
     module='FlacModel.Props.C07',
     theorems=['Flac.C07.readFrame_good', 'Flac.C07.step_exact', 'Flac.C07.reader_exactly_once', 'Flac.C07.fresh_reader_prefix',
-              'Flac.C07.eos_idempotent', 'Flac.C07.eos_only_at_end', 'Flac.C07.byte_eq_serialised_samples', 'Flac.C07.chan_eos_idempotent'],
+              'Flac.C07.eos_idempotent', 'Flac.C07.eos_only_at_end', 'Flac.C07.byte_eq_serialised_samples', 'Flac.C07.chan_eos_idempotent',
+              'Flac.C07.chanStep_exact', 'Flac.C07.chan_reader_exactly_once', 'Flac.C07.fresh_chan_reader_prefix'],
     components=[ReaderHist('noseek')],
     rule='12 (quick) / 80 (thorough) files written by the real encoder (1-8 channels, depths 4-32, non-periodic noise, short final blocks, declared and '
          'undeclared totals) x random histories over read(n)/fill/consume(k)/iterate on the byte, sample, iterator and channel readers, both byte orders, '
@@ -1463,10 +1464,11 @@ PROPS['C07'] = dict(
           '(everything delivered) ++ (buffer ++ unread frames) = the whole decoded stream - proved by induction over the operation list from the one-step lemma '
           'step_exact and the decoder invariant readFrame_good (end-of-stream accounting against STREAMINFO, short-block rule). eos_idempotent / '
           'chan_eos_idempotent: once nothing remains every further call signals end again; eos_only_at_end: an empty read means everything was delivered; '
-          'byte_eq_serialised_samples: byte stream = sample stream serialised at ceil(depth/8) bytes.',
+          'byte_eq_serialised_samples: byte stream = sample stream serialised at ceil(depth/8) bytes. chan_reader_exactly_once: for EVERY history of fill_buf/consume on the '
+          'per-channel reader over rectangular frames and EVERY channel, what left the reader followed by what it still holds is that channel of the whole decoded stream '
+          '(the de-interleaved samples).',
     note='Independence from how the source fragments its reads is a property of the model by construction (it never sees read boundaries) and is '
-         'exhibited for the implementation by fragmenting sources; BufReader/read_exact are trusted. The full exactly-once theorem for the channel reader is '
-         'covered by the correspondence; only its end-of-stream theorem is mechanised.',
+         'exhibited for the implementation by fragmenting sources; BufReader/read_exact are trusted.',
     trusted_base=COMMON_TRUST,
     assumptions=['valid stream: non-empty frames, total unknown or equal to the sum of frame lengths, only the last frame <= 14 samples'],
 )
@@ -1474,7 +1476,7 @@ PROPS['C07'] = dict(
 PROPS['C06'] = dict(
     module='FlacModel.Props.C06',
     theorems=['Flac.C06.seek_lands', 'Flac.C06.skipTo_spec', 'Flac.C06.seek_refines_cursor', 'Flac.C06.end_seek_in_bytes',
-              'Flac.C06.start_current_targets', 'Flac.C06.lastPointLe_mem'],
+              'Flac.C06.start_current_targets', 'Flac.C06.lastPointLe_mem', 'Flac.C06.chan_skipTo_spec', 'Flac.C06.chan_seek_lands'],
     components=[ReaderHist('seek')],
     rule='same files as C07 with every seek-table policy the encoder offers (off, every frame, every 2/3 frames, every second at low rates, default) x '
          'random interleavings of read/fill/consume with Start/Current/End byte seeks and sample seeks, targets biased to 0, frame boundaries +-1, end-1, end, '
@@ -1482,8 +1484,10 @@ PROPS['C06'] = dict(
     claim='seek_refines_cursor: for every stream whose seek table is truthful and every target, Decoder::seek + the skip-forward loop leave the reader '
           'holding exactly the decoded stream from the requested unit on (bytes for the byte reader, samples for the sample reader) and fail when the target '
           'lies beyond the end, never delivering data from elsewhere; seek_lands: the decoder lands on a frame boundary at or before the target in a good '
-          'state; end_seek_in_bytes / start_current_targets: End-relative requests are measured in bytes, Start literally, Current from bytes delivered.',
-    note='TableTruthful is a hypothesis (C09 shows it for files written by the crate). The channel reader seek is covered by the correspondence and oracle only.',
+          'state; end_seek_in_bytes / start_current_targets: End-relative requests are measured in bytes, Start literally, Current from bytes delivered. '
+          'chan_seek_lands: after FlacChannelReader::seek(sample) every channel resumes exactly at PCM frame `sample` of that channel of the whole stream (chan_skipTo_spec: the '
+          'skip loop drops the same number of PCM frames from every channel), and the seek fails beyond the end.',
+    note='TableTruthful is a hypothesis (C09 shows it for files written by the crate).',
     trusted_base=COMMON_TRUST,
     assumptions=['TableTruthful: every defined seek point names the first sample and byte offset of a real frame'],
 )
